@@ -1,6 +1,11 @@
 pub mod c01;
 pub mod c03;
 pub mod c04;
+pub mod c05;
+pub mod c06;
+pub mod c11;
+pub mod c12;
+pub mod c20;
 
 use crate::report::{Finish, Job};
 
@@ -20,6 +25,11 @@ pub fn plan(prop: &str, tier: Tier) -> Option<Plan> {
     "C01" => Some(c01::plan(tier)),
     "C03" => Some(c03::plan(tier)),
     "C04" => Some(c04::plan(tier)),
+    "C05" => Some(c05::plan(tier)),
+    "C06" => Some(c06::plan(tier)),
+    "C11" => Some(c11::plan(tier)),
+    "C12" => Some(c12::plan(tier)),
+    "C20" => Some(c20::plan(tier)),
     _ => None,
   }
 }
